@@ -128,6 +128,11 @@ def opt_corpus():
     a(P("magic_aggregate", E2 + V1 + ".decl p(x:number,y:number)\n.decl o(x:number,n:number)\n.output o\np(x,y) :- e(x,y).\np(x,z) :- p(x,y), e(y,z).\no(x,n) :- v(x), n = count : { p(x,_) }.\n", "magic"))
     a(P("magic_two_outputs", E2 + V1 + ".decl p(x:number,y:number)\n.decl o1(y:number)\n.decl o2(x:number)\n.output o1\n.output o2\np(x,y) :- e(x,y).\np(x,z) :- e(x,y), p(y,z).\no1(y) :- v(x), p(x,y).\no2(x) :- v(y), p(x,y).\n", "magic"))
     a(P("magic_eqrel", E2 + V1 + ".decl q(x:number,y:number) eqrel\n.decl o(y:number)\n.output o\nq(x,y) :- e(x,y).\no(y) :- v(x), q(x,y).\n", "magic"))
+    a(P("magic_both_bound", E2 + ".decl p(x:number,y:number)\n.decl o()\n.decl o2(x:number)\n.output o\n.output o2\np(x,y) :- e(x,y).\np(x,z) :- p(x,y), p(y,z).\no() :- p(1,2).\no2(x) :- p(x,x), !p(x,1).\n", "magic"))
+    a(P("magic_neg_two_recursive", E2 + V1 + ".decl r(x:number,y:number)\n.decl s(x:number,y:number)\n.decl o(y:number)\n.output o\nr(x,y) :- e(x,y).\nr(x,z) :- r(x,y), e(y,z).\ns(x,y) :- v(x), v(y), !r(x,y).\ns(x,z) :- s(x,y), e(y,z), !r(z,x).\no(y) :- s(3,y).\n", "magic"))
+    a(P("magic_record", E2 + ".type Pr = [a:number, b:number]\n.decl r(k:number,p:Pr)\n.decl o(x:number,y:number)\n.output o\nr(x,[x,y]) :- e(x,y).\no(x,y) :- r(4,[x,y]).\n", "magic"))
+    a(P("magic_choice", E2 + ".decl c(x:number,y:number) choice-domain x\n.decl o(y:number)\n.output c\n.output o\nc(x,y) :- e(x,y).\no(y) :- c(2,y).\n", "magic", judge="choice", orders=("fwd", "rev")))
+    a(P("magic_float_L", ".decl e(x:float,y:float)\n.input e\n.decl p(x:float,y:float)\n.decl o(y:float)\n.output o\np(x,y) :- e(x,y), x < y.\no(y) :- p(1.5,y).\n", "magic", mode="L", n=2, tiers=("thorough",)))
     a(P("magic_functor_L", E2 + ".decl p(x:number,y:number)\n.decl o(y:number)\n.output o\np(x,y) :- e(x,y).\no(y+1) :- p(3,y).\n", "magic", mode="L", n=2))
     return C
 
